@@ -22,6 +22,7 @@ func main() {
 	seed := fs.Int64("seed", 1, "")
 	out := fs.String("out", ".", "")
 	only := fs.Int("only", -1, "")
+	fine := fs.Bool("fine", false, "fine-grained phase (binary built with the vsync overlay)")
 	_ = fs.Parse(os.Args[2:])
 	f, ok := props.All[prop]
 	if !ok {
@@ -33,6 +34,7 @@ func main() {
 		fmt.Fprintln(os.Stderr, err)
 		os.Exit(2)
 	}
+	ctx.Fine = *fine
 	f(ctx)
 	if err := ctx.Close(); err != nil {
 		fmt.Fprintln(os.Stderr, err)
